@@ -6,9 +6,10 @@ import RwsDriver.Common
 import RwsDriver.Base64
 import RwsDriver.Cors
 import RwsDriver.RangeM
+import RwsDriver.Pool
 open RwsDriver
 
-def allOps : List (String × Op) := base64Ops ++ corsOps ++ rangeMOps
+def allOps : List (String × Op) := base64Ops ++ corsOps ++ rangeMOps ++ poolOps
 
 def runLine (line : String) : String :=
   match (line.trimAscii.toString.splitOn " ").filter (· ≠ "") with
